@@ -137,6 +137,24 @@ def run(c):
         nid[0] += 1
         fk.append(add_run(text.replace("s %d a" % (nid[0] - 1), "s %d a" % nid[0]), {nid[0]: ("a", False, 0)}, kinds, filter_kill="control"))
     batches.append({"id": nbatch + 1, "parallel": 1, "runs": fk})
+    # calls with two pathnames: the decision for the call is the strictest of the two
+    tp = []
+    for rep_ in range(1 if c.quick() else 4):
+        for opn in ("ren", "lnk", "rn0"):
+            for d1 in "abk":
+                for d2 in "abk":
+                    nid[0] += 1
+                    a = nid[0]
+                    nid[0] += 1
+                    shape = (len(tp) + rep_) % 2
+                    if shape == 0:
+                        text, kinds, task = "task 0 -\n%s %d %s%s\ns %d a\n" % (opn, a, d1, d2, nid[0]), {0: "main"}, 0
+                    else:
+                        text, kinds, task = "task 0 -\nfork 1 -\nwait 0 -\ns %d a\ntask 1 -\n%s %d %s%s\n" % (nid[0], opn, a, d1, d2), {0: "main", 1: "fork"}, 1
+                    run_ = add_run(text, {nid[0]: ("a", False, 0)}, kinds, twopath=(a, opn, d1, d2, task))
+                    os.mkdir("%s/m_%d_1_%s" % (run_["dir"], a, d1)) if opn != "lnk" else open("%s/m_%d_1_%s" % (run_["dir"], a, d1), "w").close()
+                    tp.append(run_)
+    batches.append({"id": nbatch + 2, "parallel": 4, "runs": tp})
     obs = c.run_harness(exe, batches, timeout=1500)
     items, item_src = [], []
     gi = 0
@@ -158,6 +176,34 @@ def run(c):
                 cl, nm = a.split()
                 asked[int(nm.split("_")[1])] = cl
             killed = any(ids[i][0] == "k" for i in asked if i in ids)
+            if kw.get("twopath"):
+                a, opn, d1, d2, task = kw["twopath"]
+                eff = max(d1, d2, key="abk".index)
+                c.count(text, nontrivial=True, klass="run:two-paths:%s%s" % (d1, d2))
+                ids = dict(ids)
+                src, dst = "m_%d_1_%s" % (a, d1), "m_%d_2_%s" % (a, d2)
+                seen = sorted(x.split()[1] for x in (ro["asked"] or []) if x.split()[1] in (src, dst))
+                rep2 = dict(rep, call=opn, decisions=[d1, d2])
+                if eff != "a" and dst in ro["markers"]:
+                    c.finding_or_violation(cz("a %s call with two pathnames took effect" % {"b": "banned", "k": "killed"}[eff], call=opn, decisions=d1 + d2), rep2, klass="two-paths-effect")
+                got = rets.pop(a, None)
+                if eff == "k":
+                    killed = True
+                    if got is not None:
+                        c.finding_or_violation(cz("a call with two pathnames of which one is to be killed returned to the program", call=opn, decisions=d1 + d2, ret=got[0], errno=got[1]),
+                                               rep2, klass="two-paths-kill")
+                    if ro["status"] != 5:
+                        c.finding_or_violation(cz("a kill verdict for one of the two pathnames of a call does not end the run as Disallowed Syscall", call=opn, decisions=d1 + d2,
+                                                  status=ro["status"]), rep2, klass="two-paths-kill-status")
+                elif eff == "b":
+                    if got != (-1, 13):
+                        c.finding_or_violation(cz("a call with a banned pathname does not return the configured error", call=opn, decisions=d1 + d2, got=got), rep2, klass="two-paths-ban")
+                else:
+                    if got != (0, 0) or dst not in ro["markers"] or seen != sorted([src, dst]):
+                        c.finding_or_violation(cz("an allowed call with two pathnames did not execute after both were presented", call=opn, got=got, presented=seen), rep2, klass="two-paths-allow")
+                asked = {i: cl for i, cl in asked.items() if i != a}
+                if eff == "k":
+                    ids = {}
             if kw.get("filter_kill") == "control":
                 c.count(text, nontrivial=True, klass="run:filter-control")
                 if ro["status"] != 1 or not any(m.startswith("m_") for m in ro["markers"]):
@@ -176,10 +222,14 @@ def run(c):
                 c.dist["task." + k] = c.dist.get("task." + k, 0) + 1
             for m in ro["markers"]:
                 i = int(m.split("_")[1])
+                if i not in ids:
+                    continue
                 d, pre, _ = ids[i]
                 if d != "a" and not pre:
                     c.finding_or_violation(cz("a %s syscall took effect" % {"b": "banned", "k": "killed"}[d], decision=d), dict(rep, marker=m), klass="effect:" + d)
             for i, (ret, en) in rets.items():
+                if i not in ids:
+                    continue
                 d, pre, task = ids[i]
                 if i not in asked:
                     c.finding_or_violation(cz("a traced syscall returned to the program without the handler having been consulted", ret=ret, errno=en,
